@@ -9,3 +9,4 @@ open UtilModel UtilModel.Routine
 #print axioms UtilModel.Routine.chain_inv
 #print axioms UtilModel.Routine.waitReturn_after_all
 #print axioms UtilModel.Routine.C04a_obs
+#print axioms UtilModel.Routine.C04_obs
